@@ -487,6 +487,20 @@ pub fn run_workload(sub: u64, only_seed: Option<u64>, acc: &mut Acc, ctx: &Ctx, 
         (None, Some((p, j))) => vec![format!("read_err=/w/{p}:{j}:5"), "read_frag=3".into()],
         _ => vec!["noop=1".into()],
     };
+    if rng.chance(1, 8) && !w.explicit_only {
+        // a directory cannot be listed to the end (in the reference run and in every scheduled run)
+        let mut dirs: Vec<String> = w.corpus.files.iter().filter_map(|(p, _)| p.rfind('/').map(|i| p[..i].to_string())).filter(|d| !d.starts_with("..")).collect();
+        dirs.sort();
+        dirs.dedup();
+        let suffix = if dirs.is_empty() || rng.chance(1, 3) { "/w".to_string() } else { format!("/w/{}", dirs[rng.below(dirs.len())]) };
+        plan.push(format!("readdir_err={suffix}:{}:5", rng.below(5)));
+    }
+    if rng.chance(1, 6) {
+        // stdout takes 1-97 bytes per write and answers EINTR now and then: a worker's buffer is
+        // then written piecemeal while it holds the output lock
+        plan.push(format!("stdout_frag={}", 1 + rng.below(1000)));
+        plan.push(format!("stdout_eintr={}", rng.below(8)));
+    }
     if rng.chance(1, 6) {
         // the stat of two files fails once they are open (in the reference run and in every
         // scheduled run alike): a lost size hint must not make a file's block depend on what
